@@ -76,7 +76,7 @@ impl Prop for C10 {
         (prop_oneof![3 => a, 1 => b], any::<u8>()).prop_map(|(g, k)| CompCase { g, k }).boxed()
     }
     fn random_cases(&self, tier: Tier) -> u32 {
-        tier.pick(40_000, 800_000)
+        tier.pick(300_000, 3_000_000)
     }
     fn check(&self, case: &CompCase) -> Outcome {
         let mut out = Outcome::new();
